@@ -85,7 +85,8 @@ class Identifier(ASTNode):
         return identifier
 
     def __deepcopy__(self, memo):
-        identifier = Identifier(parts=copy(self.parts))
+        # parts may hold a Star node (tbl.*): it has to be copied too
+        identifier = Identifier(parts=deepcopy(self.parts, memo))
         identifier.alias = deepcopy(self.alias)
         identifier.parentheses = self.parentheses
         if hasattr(self, 'sub_select'):
